@@ -203,6 +203,15 @@ pub fn c11(tier: &str, seed: u64, meta: &str) -> Report {
                 };
                 SEv::Update([2u32, 3, 10, 11, 6, 0][rng.below(6)], edit)
             }
+            2 if rng.chance(1, 2) => {
+                // a round trip: phonetic -> fixed, the user's auto-correct file edited while the fixed layout is active,
+                // then back to phonetic (a method object kept from before must not come back stale)
+                let pb = pbits(&s.opts);
+                feed(w, &mut s, &[SEv::UpdateLayout(PROBHAT.into(), 64 | 128)], rep, "C11");
+                if let Some(k) = fpr.keys_for("কা") { let mut k = k; k.push(SEv::Finish); feed(w, &mut s, &k, rep, "C11"); }
+                feed(w, &mut s, &[SEv::Update(64 | 128, UacEdit::Write(vec![("jhal".into(), "jhaal".into()), ("hlp".into(), "help".into())]))], rep, "C11");
+                SEv::UpdateLayout(PHONETIC.into(), pb | 2)
+            }
             2 => SEv::UpdateLayout(if rng.chance(1, 2) { PROBHAT.into() } else { crate::fx::SYNTHETIC.into() }, 64 | (rng.below(32) as u32) | ((rng.below(2) as u32) << 7)),
             3 => SEv::UpdateLayout(PHONETIC.into(), [2u32, 3, 10][rng.below(3)]),
             4 => {
@@ -262,7 +271,7 @@ pub fn c11(tier: &str, seed: u64, meta: &str) -> Report {
         rep.nontrivial_key(&format!("{} {:?}", kind, upd));
         if rep.samples.len() < 2 && i % 101 == 7 { rep.sample(json!({"update": upd.json(), "events": s.history.len()})); }
     });
-    rep.extra.insert("rule".into(), json!("cases = (initial configuration, a history ending idle, update_engine, a continuation): phonetic option flips with user auto-correct edits in between (kept, deleted, entry removed, entries changed/added, emptied, cut off in the middle; modification times set explicitly, alternately 0.3 s and 10 s apart), phonetic -> fixed, fixed -> phonetic, fixed -> fixed with another layout file (incl. a different file of the same name in another directory, and two files whose names differ in letter case only), fixed option flips (incl. the number-pad option followed by a number-pad key); the continuation is replayed in the updated context and in a context newly created with the new configuration over the same files; both also compared with the extracted model"));
+    rep.extra.insert("rule".into(), json!("cases = (initial configuration, a history ending idle, update_engine, a continuation): phonetic option flips with user auto-correct edits in between (kept, deleted, entry removed, entries changed/added, emptied, cut off in the middle; modification times set explicitly, alternately 0.3 s and 10 s apart), phonetic -> fixed, fixed -> phonetic, phonetic -> fixed -> (auto-correct file edited) -> phonetic, fixed -> fixed with another layout file (incl. a different file of the same name in another directory, and two files whose names differ in letter case only), fixed option flips (incl. the number-pad option followed by a number-pad key); the continuation is replayed in the updated context and in a context newly created with the new configuration over the same files; both also compared with the extracted model"));
     rep
 }
 
